@@ -22,7 +22,7 @@ REAL_VS_STUB = {"real": ["load_ff_library, ff/itp parsers, MetaMolecule builders
                          "find_missing_edges, vermouth write_molecule_itp + DeferredFileWriter, Topology.from_gmx_topfile, "
                          "bin/polyply main() (argument parsing) in a fraction of the calls, real file system"],
                 "stub": ["tqdm disabled", "sys.argv pinned", "os.listdir of the library directory sorted/permuted by the harness"]}
-PROBES = ["atom_deleting_link", "read_back_next_to_lower_case_namesake", "read_back_through_nested_include", "read_back_from_other_cwd_with_decoy", "read_back_with_guard_tags_defined", "publish_across_filesystems", "via_main", "same_path_backup", "after_failed_call", "cwd_differs", "lib_job", "conditional_interactions",
+PROBES = ["earlier_output_directory_removed", "raised_after_output_was_written", "atom_deleting_link", "read_back_next_to_lower_case_namesake", "read_back_through_nested_include", "read_back_from_other_cwd_with_decoy", "read_back_with_guard_tags_defined", "publish_across_filesystems", "via_main", "same_path_backup", "after_failed_call", "cwd_differs", "lib_job", "conditional_interactions",
           "json_graph", "cyclic_graph"]
 
 
@@ -68,6 +68,8 @@ def gen_job(verif_seed, tier, index):
             op["read_indirect"] = True
         elif not op.get("read_with_decoy_in_cwd") and g.random() < 0.25:
             op["read_with_case_decoy"] = True
+        if out.startswith("sub/") and k < nops - 1 and g.random() < 0.4:
+            op["rm_outdir_after"] = True          # its output directory is gone when the next call runs
         if g.random() < 0.15 and op.get("expect") != "fail":
             op["via_main"] = True
         ops.append(op)
@@ -89,6 +91,8 @@ def run_job(job):
             probes["read_back_from_other_cwd_with_decoy"] = probes.get("read_back_from_other_cwd_with_decoy", 0) + 1
         if any("atomname\": null" in t for _f, t in op.get("files", [])):
             probes["atom_deleting_link"] = probes.get("atom_deleting_link", 0) + 1
+        if op.get("rm_outdir_after"):
+            probes["earlier_output_directory_removed"] = probes.get("earlier_output_directory_removed", 0) + 1
         if op.get("read_with_case_decoy"):
             probes["read_back_next_to_lower_case_namesake"] = probes.get("read_back_next_to_lower_case_namesake", 0) + 1
         if op.get("read_indirect"):
@@ -114,6 +118,10 @@ def run_job(job):
                                            "load_library.py", "ff_parser_sub.py", "polyply_parser.py", "meta_molecule.py",
                                            "simple_seq_parsers.py", "gen_dna.py"):
                     probes["refused_in_mapping_or_links"] = probes.get("refused_in_mapping_or_links", 0) + 1
+                elif r.get("out_text") and op["out"] in (r.get("created", []) + r.get("modified", [])):
+                    # the call raised AFTER it had written its output (e.g. while printing a force-field message that
+                    # refers to an atom a link deleted): the property speaks of the file, which is there - counted only
+                    probes["raised_after_output_was_written"] = probes.get("raised_after_output_was_written", 0) + 1
                 else:
                     viols.append({"property": PROP, "clause": "crash", "seq": r["i"], "facts": {"where": where},
                                   "msg": f"call {r['i']} (valid input) raised {r.get('error')} at {where}"})
